@@ -27,7 +27,8 @@ the markup parser (`get_parser_by_name(docformat, obj)(doc, errs)`), `to_stan`, 
 the `SummaryExtractor` walk, `build_table_of_content`, the `ParsedTypeDocstring` constructor.
 An outcome is "returns a value" or "raises `e`" — exceptions are explicit (`Exc`), and every
 place where the Python has no handler propagates (`Res.raises`).  The model follows /repo after
-the fixes c070c47 (a broken summary is remembered on the object rendered), 4690c0c (reportErrors keyed by phase), c422501 (format_toc guards get_toc), 4caea46 (colorized_pyval_fallback guards to_node),
+the fixes 46bdc37 (a failed field shows its text), b867a76 (report key = the object: objects ARE identities here),
+2732bb2 (reST registry restored: `parseRestoring`), c070c47 (a broken summary is remembered on the object rendered), 4690c0c (reportErrors keyed by phase), c422501 (format_toc guards get_toc), 4caea46 (colorized_pyval_fallback guards to_node),
 e1378c4 (search text guards to_node) and a0ab2a9 (epytext to_node keeps no half-built
 document, so `to_node` is a function of the parsed docstring, as the model assumes); the pre-fix
 `format_toc` survives as `formatTocOld`.  Errors a parser appended to the
@@ -156,6 +157,7 @@ structure Env where
   mkTyped : Nat → Nat → TypedOut              -- body k, lineno
   walk : PD → WalkOut
   buildToc : PD → Nat → TocOut
+  nodeText : Nat → Text                       -- ''.join(gettext(body k .to_node())): the text of a field body
   isAttribute : Obj → Bool                    -- isinstance(obj, model.Attribute)
   annotation : Obj → Option Nat               -- colorize_inline_pyval(obj.annotation) as ParsedDocstring k
   constPd : Obj → Nat                         -- colorize_pyval(obj.value, …) as ParsedDocstring k
@@ -446,8 +448,45 @@ structure DocOut where
   fields : List Stan
   deriving DecidableEq, Repr
 
+/-- Python's `str.isspace` on one character (what `text.strip()` removes) -/
+def pyIsSpace (c : Char) : Bool :=
+  let n := c.toNat
+  (9 ≤ n && n ≤ 13) || (28 ≤ n && n ≤ 32) || n == 0x85 || n == 0xA0 || n == 0x1680 ||
+  (0x2000 ≤ n && n ≤ 0x200A) || n == 0x2028 || n == 0x2029 || n == 0x202F || n == 0x205F || n == 0x3000
+
+/-- `format_field_fallback` (46bdc37): the text of the field's node tree as `<p class="pre">`; BROKEN when the
+body has no node tree (`to_node` raises: a ParsedTypeDocstring) or no visible text -/
+def fieldFallback (env : Env) (b : Body) : Stan :=
+  match b, bodyToNode env b with
+  | _, .raises _ => .broken
+  | .typed _, .returns => .broken              -- not reached: typed.to_node raises
+  | .user k, .returns =>
+    if (env.nodeText k).any (fun c => !pyIsSpace c) then .pre (env.nodeText k) else .broken
+
+/-- `Field.format()` = `safe_to_stan(body, linker, source, fallback=format_field_fallback)` -/
+def fieldToStan (env : Env) (st : St) (b : Body) (src : Obj) : Stan × St :=
+  match bodyToStan env b with
+  | .returns s => (s, st)
+  | .raises e => (fieldFallback env b, reportErrors st src [toStanError e] 0 .rendering)
+
+/-- HISTORICAL (before 46bdc37): the fallback of a field was `lambda …: BROKEN` — the text of the field was shown
+nowhere.  Used only by `field_failure_text_lost_old_counterexample`. -/
+def fieldToStanOld (env : Env) (st : St) (b : Body) (src : Obj) : Stan × St :=
+  safeToStanOut st (bodyToStan env b) src .broken true 0
+
+/-! ### restructuredtext.parse_docstring and docutils' module-level role registry (abstract)
+
+`roles_before = dict(roles._roles); try: publish_string(…) finally: roles._roles.clear(); roles._roles.update(roles_before)`
+(2732bb2).  A parse is a function of the registry it finds; it returns its outcome and the registry it leaves. -/
+
+def parseRestoring {R α : Type} (reg : R) (parse : R → α × R) : α × R := ((parse reg).1, reg)
+
+/-- HISTORICAL (before 2732bb2): whatever the parser left in the registry stayed there (docutils forgets the
+default role only when the state machine returns normally) -/
+def parseLeaking {R α : Type} (reg : R) (parse : R → α × R) : α × R := parse reg
+
 /-- the `FieldHandler.handle` loop of format_docstring, as far as the wrappers are concerned: one
-`Field.format()` (= `safe_to_stan` with the BROKEN fallback, reported against the source) per field
+`Field.format()` (= `safe_to_stan` with `format_field_fallback`, reported against the source) per field
 whose handler formats it, in call order.  `type` fields: for an Attribute `handle_type` stores the
 body as `obj.parsed_type` and formats nothing; otherwise the body is formatted when the field has
 an argument (`@type name:` in a class/module docstring).  `ivar`/`cvar`/`var`: `handled_elsewhere`.
@@ -461,12 +500,12 @@ def formatFields (env : Env) (st : St) (obj src : Obj) : List Field → List Sta
     | .typ =>
       if env.isAttribute obj then formatFields env (setPType st obj f.body) obj src fs
       else if f.arg.isSome then
-        let r := safeToStanOut st (bodyToStan env f.body) src .broken true 0
+        let r := fieldToStan env st f.body src
         let rs := formatFields env r.2 obj src fs
         (r.1 :: rs.1, rs.2)
       else formatFields env st obj src fs
     | _ =>
-      let r := safeToStanOut st (bodyToStan env f.body) src .broken true 0
+      let r := fieldToStan env st f.body src
       let rs := formatFields env r.2 obj src fs
       (r.1 :: rs.1, rs.2)
 
